@@ -183,6 +183,17 @@ def scenarios(tier, rng):
             sc.append({"g": "kern", "op": "kdiv", "n": slice_bytes(n, nl + rng.choice([0, 1])), "d": slice_bytes(d, dl + rng.choice([0, 1]))})
             if nl >= dl >= 3:
                 sc.append({"g": "kern", "op": "kdiv_nxm", "n": slice_bytes(n, nl), "d": slice_bytes(d, dl)})
+    # equal and nearly equal operands, divisors with zero low limbs against shorter / equal / longer numerators, with padding
+    # (the dispatcher's comparisons and zero-limb handling; see C03.low_zero_divisor_cases)
+    for bits in (192, 256, 320, 448):
+        for n, d in C03.low_zero_divisor_cases(bits, rng, 24 if quick else 240):
+            nl, dl = max(limbs_of(n), 1), limbs_of(d)
+            sc.append({"g": "kern", "op": "kdiv", "n": slice_bytes(n, nl + rng.choice([0, 0, 1, 2])), "d": slice_bytes(d, dl + rng.choice([0, 0, 1]))})
+        for dl in range(3, bits // 64 + 1):
+            d = rand_limbs(rng, dl)
+            for n in (d, d - 1, d + 1):
+                if n >> (64 * dl) == 0:
+                    sc.append({"g": "kern", "op": "kdiv", "n": slice_bytes(n, dl + rng.choice([0, 1])), "d": slice_bytes(d, dl)})
     # zero numerators / zero divisors / alphabet products for short slices
     import itertools
     alpha = [0, 1, 2**64 - 1] if quick else [0, 1, 2**63, 2**64 - 1]
